@@ -168,7 +168,15 @@ where
         if extension.is_empty() {
             Err(())
         } else {
-            let c = DisequalityConstraint::new(extension);
+            // The bindings were collected in the iteration order of the constraint's map, and a
+            // binding's value may be a variable that a later binding of the same pass resolved.
+            // Resolve the values with the complete set, so that the simplified constraint does
+            // not depend on that order.
+            let mut resolved = SMap::new();
+            for (u, v) in extension.iter() {
+                resolved.extend(u.clone(), test_state.smap_ref().walk_star(v));
+            }
+            let c = DisequalityConstraint::new(resolved);
             Ok(state.with_constraint(c))
         }
     }
